@@ -641,6 +641,8 @@ class Executor:
                 return sv_ref(const(ident), 'simple')
             if scls and scls in self.repo.classes:
                 return sv_ref(const(ident), 'inst:' + scls)
+            if scls == 'ChainMap':
+                return sv_ref(const(ident), 'chainmap')
             return sv_ref(const(ident))
         if kind == 'class':
             return SV('class', ident)
@@ -722,7 +724,14 @@ class Executor:
         raise Unsupported('constant %r' % (v,))
 
     def e_Name(self, e, st, module):
-        return [('ok', st, self.lookup(st, e.id, module))]
+        try:
+            return [('ok', st, self.lookup(st, e.id, module))]
+        except Unsupported:
+            fnode = self.cur_func_node
+            if fnode is not None and any(isinstance(x, ast.Name) and x.id == e.id and isinstance(x.ctx, ast.Store) for x in ast.walk(fnode)):
+                # a local that is not bound on this path: Python raises UnboundLocalError (a NameError)
+                return self.raise_builtin(st, 'NameError', [sv_str(e.id)])
+            raise
 
     def e_Tuple(self, e, st, module):
         if any(isinstance(x, ast.Starred) for x in e.elts):
@@ -1111,6 +1120,8 @@ class Executor:
                 return res
         if b.k == 'ref':
             o = self.local(st, b)
+            if b.t == 'kwdict' and o is not None and a.k == 'str' and z3.is_string_value(z3.simplify(a.v)):
+                return [('ok', st, z3.BoolVal(z3.simplify(a.v).as_string() in o.items))]
             if b.t == 'dict':
                 kb = self.box(st, a)
                 has = o.has if o is not None else st.arr['dh'][b.v]
